@@ -86,6 +86,31 @@ def run_case(arg):
             if not same_shift(zt, [0, 0], shape, 1e-5):
                 bad("C13:torch:identical-nonzero", f"u={uu}: identical images gave {zt.tolist()}")
                 break
+        # the chain Register ; Swap of the specification runs on the SAME images: reuse the very same
+        # Fourier arrays across calls (as align_translation does with its reference spectrum) and
+        # require that no call modifies its inputs
+        Fa0, Fb0, a0, b0 = Fa.copy(), Fb.copy(), a.copy(), b.copy()
+        c1 = np.asarray(cross_correlation_shift(Fa, Fb, upsample_factor=u, fft_input=True), float)
+        c2 = np.asarray(cross_correlation_shift(Fb, Fa, upsample_factor=u, fft_input=True), float)
+        c3, img3 = cross_correlation_shift(Fa, Fa, upsample_factor=u, fft_input=True, return_shifted_image=True)
+        c4 = np.asarray(cross_correlation_shift(Fa, Fb, upsample_factor=u, fft_input=True), float)
+        if not (same_shift(c1, est, shape, 1e-6) and same_shift(c4, est, shape, 1e-6)):
+            bad("C13:numpy:chain:repeat", f"u={u}: repeated registration of the same spectra gave {c1.tolist()} then {c4.tolist()}, applied {est.tolist()}")
+        if not same_shift(c2, -est, shape, 1e-6):
+            bad("C13:numpy:chain:swap", f"u={u}: swap on the same spectra gave {c2.tolist()}, expected {(-est).tolist()}")
+        if not same_shift(c3, [0, 0], shape, 1e-6) or not np.allclose(img3, a, atol=1e-6):
+            bad("C13:numpy:chain:identical", f"u={u}: identical spectra gave shift {np.asarray(c3).tolist()}, aligned image error {np.abs(img3 - a).max():.3g}")
+        if not (np.array_equal(Fa, Fa0) and np.array_equal(Fb, Fb0) and np.array_equal(a, a0) and np.array_equal(b, b0)):
+            bad("C13:numpy:inputs-modified", f"u={u}: the estimator modified its input arrays")
+        ta, tb = torch.tensor(a), torch.tensor(b)
+        ta0, tb0 = ta.clone(), tb.clone()
+        t1 = cross_correlation_shift_torch(ta, tb, upsample_factor=max(u, 2)).numpy()
+        t2 = cross_correlation_shift_torch(tb, ta, upsample_factor=max(u, 2)).numpy()
+        t3 = cross_correlation_shift_torch(ta, tb, upsample_factor=max(u, 2)).numpy()
+        if not (same_shift(t1, est, shape, 1e-5) and same_shift(t3, est, shape, 1e-5) and same_shift(t2, -est, shape, 1e-5)):
+            bad("C13:torch:chain", f"u={u}: chain on the same tensors gave {t1.tolist()}, {t2.tolist()}, {t3.tolist()}")
+        if not (torch.equal(ta, ta0) and torch.equal(tb, tb0)):
+            bad("C13:torch:inputs-modified", f"u={u}: the estimator modified its input tensors")
         rs = np.asarray(cross_correlation_shift(b, a, upsample_factor=u), float)
         r0 = np.asarray(cross_correlation_shift(a, b, upsample_factor=u), float)
         if not same_shift(rs, -r0, shape, 1e-6):
